@@ -163,8 +163,11 @@ def execute(p, chooser):
                     del o
         end = p["end"]
         if end == "shutdown":
+            t0 = det.S.now
             ex.shutdown(True)
             obs["thread_done"] = worker.done
+            # shutdown() wakes the worker itself: the join must not have to sit out a poll interval / back-off / re-check timer
+            obs["shutdown_dt"] = det.S.now - t0
         elif end == "exit":
             t0 = det.S.now
             mevent.GLOBAL_HANDLER.on_exiting()
@@ -229,6 +232,9 @@ def monitor(r, obs):
                         "pattern": "reclaim:retained:%s:%s" % (p["kind"], ",".join(alive))})
     if obs["thread_done"] is False:
         out.append({"what": "worker thread still alive after %s" % p["end"], "detail": str(p), "pattern": "reclaim:thread-alive:" + p["end"]})
+    if obs.get("shutdown_dt") and obs["thread_done"]:
+        out.append({"what": "shutdown(wait=True) returned only %s virtual seconds later: the worker left when a later timer expired, not when shutdown() woke it"
+                            % obs["shutdown_dt"], "detail": str(p), "pattern": "reclaim:shutdown-late:" + p["kind"]})
     if obs.get("exit_prompt") is False and obs["thread_done"]:
         out.append({"what": "the exit hook returned but the worker thread only left when a later timer expired", "detail": str(p),
                     "pattern": "reclaim:exit-late:" + p["kind"]})
